@@ -123,6 +123,12 @@ def check(run):
         specs = [rand_shell(rng, rng.randint(0, 1 if quick else 2), cs, nprim=rng.randint(2, 3), nseg=rng.randint(1, 2), exp_lo=0.1, exp_hi=10.0)
                  for _ in range(rng.randint(1, 2))]
         rewrites(run, rng, specs, 0, None, ["eri_chemist"])
+    # all-s generalized shells go through the dedicated (ss|ss) routine
+    for it in range(1 if quick else 4):
+        cs = []
+        specs = [rand_shell(rng, 0, cs, nprim=rng.randint(2, 3), nseg=2 + (i + it) % 2, exp_lo=0.1, exp_hi=10.0) for i in range(2)]
+        rewrites(run, rng, specs, it % 2, None, ["eri_chemist", "eri_physicist"])
+        run.count("all-s generalized ERI")
     for it in range(4 if quick else 25):
         sa, sb = pair_specs(rng, rng.randint(0, 4), rng.randint(0, 3))
         linearity(run, rng, sa.copy(sph=False), sb.copy(sph=False))
